@@ -1106,6 +1106,35 @@ func VerifInjBase(kv map[string]string) string {
 	return fmt.Sprintf("fixtures=%d#rejected=%s#files=%s#malformed=%s#norender=%s", len(objs), strings.Join(rejected, ","), strings.Join(names, ","), strings.Join(bad, ","), strings.Join(norender, ","))
 }
 
+// verifRenderWithLeaf renders the fixture set with one string leaf replaced; nil if the leaf is missing, the object is rejected or
+// the rendering fails.
+func verifRenderWithLeaf(fx *verifFx, plus bool, path, val, host string) map[string]string {
+	obj, err := fx.decode()
+	if err != nil {
+		return nil
+	}
+	found := false
+	for _, l := range verifLeaves(obj) {
+		if verifClean(l.Path) == path {
+			l.Set(val)
+			found = true
+			break
+		}
+	}
+	if !found || verifAccept(obj, plus) != "" {
+		return nil
+	}
+	objs, err := verifFixtureSet(plus, fx.File, obj, fx)
+	if err != nil {
+		return nil
+	}
+	files, _, err := verifRenderSet(plus, objs, host)
+	if err != nil {
+		return nil
+	}
+	return files
+}
+
 // VerifInj replaces one string leaf of one fixture by a payload and reports: rej (validation refuses it) | acc + what the
 // rendered files look like.  kv: fx, plus, path, val (hex), win
 func VerifInj(kv map[string]string) string {
@@ -1200,6 +1229,11 @@ func VerifInj(kv map[string]string) string {
 			}
 			same++
 			if a, b := verifSkeleton(files[f]), verifSkeleton(bf); a != b {
+				// a value that the generator's own parser refuses is dropped (logged, the default is used): the skeleton then differs
+				// by omission only, exactly as it does when the value is empty — that is not the value leaving its token
+				if e := verifRenderWithLeaf(fx, plus, kv["path"], "", host); e != nil && verifSkeleton(e[f]) == a {
+					continue
+				}
 				return "acc#bad=" + verifClean(fmt.Sprintf("%s: white space around the value changes the skeleton: %s", f, verifFirstDiff(a, b)))
 			}
 			if msg := verifio.NgxWellFormed(files[f]); msg != "" {
